@@ -206,6 +206,54 @@ func specialPlans(rng *rand.Rand, cfg Cfg) []HostilePlan {
 			frameBytes(0, []byte{0x80}), frameBytes(0, []byte{0x90, 96, 0, 1, 0, 0, 0, 1, 0, 0, 0, 2, 0xff, 0xff, 0xff, 0xff}), frameBytes(0, rtpPacket(96, 1)), frameBytes(0, rtpPacket(96, 40000)), frameBytes(0, rtpPacket(97, 2)),
 			frameBytes(0, append(rtpPacket(96, 3)[:12], 28, 0x80)), frameBytes(0, append(rtpPacket(96, 4)[:12], 24, 0xff, 0xff)), frameBytes(1, []byte{0x80, 200, 0, 6, 0, 0, 0, 2, 1, 2, 3, 4, 5, 6, 7, 8, 0, 0, 0, 1, 0, 0, 0, 1, 0, 0, 0, 1})}, Silent: true, Drain: true},
 	}
+	// a publisher that announces many codecs and then sends random payloads for each of them
+	{
+		sdp := "v=0\r\no=- 0 0 IN IP4 127.0.0.1\r\ns=x\r\nc=IN IP4 0.0.0.0\r\nt=0 0\r\n" +
+			"m=video 0 RTP/AVP 96\r\na=rtpmap:96 H264/90000\r\na=fmtp:96 packetization-mode=1\r\na=control:trackID=0\r\n" +
+			"m=video 0 RTP/AVP 97\r\na=rtpmap:97 H265/90000\r\na=control:trackID=1\r\n" +
+			"m=video 0 RTP/AVP 98\r\na=rtpmap:98 VP8/90000\r\na=control:trackID=2\r\n" +
+			"m=video 0 RTP/AVP 99\r\na=rtpmap:99 VP9/90000\r\na=control:trackID=3\r\n" +
+			"m=video 0 RTP/AVP 100\r\na=rtpmap:100 AV1/90000\r\na=control:trackID=4\r\n" +
+			"m=video 0 RTP/AVP 26\r\na=control:trackID=5\r\n" +
+			"m=video 0 RTP/AVP 32\r\na=control:trackID=6\r\n" +
+			"m=audio 0 RTP/AVP 101\r\na=rtpmap:101 mpeg4-generic/48000/2\r\na=fmtp:101 profile-level-id=1; mode=AAC-hbr; sizelength=13; indexlength=3; indexdeltalength=3; config=1190\r\na=control:trackID=7\r\n"
+		chunks := [][]byte{(&RawReq{Method: "ANNOUNCE", URL: pu, Headers: hdr(1, [2]string{"Content-Type", "application/sdp"}), Body: sdp}).Bytes()}
+		pts := []byte{96, 97, 98, 99, 100, 26, 32, 101}
+		for i := 0; i < 8; i++ {
+			r := &RawReq{Method: "SETUP", URL: fmt.Sprintf("%s/trackID=%d", pu, i), Headers: hdr(2+i, [2]string{"Transport", fmt.Sprintf("RTP/AVP/TCP;unicast;interleaved=%d-%d;mode=record", 2*i, 2*i+1)})}
+			if i > 0 {
+				r.Headers = append(r.Headers, [2]string{"Session", "{{SID}}"})
+			}
+			chunks = append(chunks, r.Bytes())
+		}
+		chunks = append(chunks, (&RawReq{Method: "RECORD", URL: pu, Headers: hdr(20, [2]string{"Session", "{{SID}}"})}).Bytes())
+		for i := 0; i < 240; i++ {
+			k := rng.IntN(8)
+			payload := make([]byte, rng.IntN(40))
+			for j := range payload {
+				payload[j] = byte(rng.IntN(256))
+			}
+			if len(payload) > 0 && rng.IntN(2) == 0 {
+				// plausible first bytes: aggregation / fragmentation units
+				payload[0] = []byte{24, 28, 28 | 0x80, 48 << 1, 49 << 1, 0x10, 0x90, 0xff, 0}[rng.IntN(9)]
+			}
+			pkt := append([]byte{0x80, pts[k] | byte(rng.IntN(2))<<7, byte(i >> 8), byte(i), 0, 0, byte(i >> 8), byte(i), 0, 0, 0, byte(k + 1)}, payload...)
+			chunks = append(chunks, frameBytes(2*k, pkt))
+		}
+		plans = append(plans, HostilePlan{Label: "record-tcp-many-codecs-random-rtp", Chunks: chunks, Silent: true, Drain: true})
+	}
+	if cfg.TLS {
+		// secure profile: key management accepted, then frames that do not authenticate, and a wrong SSRC
+		ku := baseURL(cfg, "/pub") + "/trackID=0"
+		sec := (&RawReq{Method: "SETUP", URL: ku, Headers: hdr(2, [2]string{"Transport", "RTP/SAVP/TCP;unicast;interleaved=0-1;mode=record"}, [2]string{"KeyMgmt", validKeyMgmt(ku, rng)})}).Bytes()
+		plans = append(plans,
+			HostilePlan{Label: "record-savp-unauthenticated-frames", Chunks: [][]byte{announce, sec, record,
+				frameBytes(0, rtpPacket(96, 1)), frameBytes(0, append(rtpPacket(96, 2), make([]byte, 10)...)), frameBytes(0, []byte{0x80, 96, 0, 3, 0, 0, 0, 1, 9, 9, 9, 9}),
+				frameBytes(1, append(rtcpRR(), make([]byte, 14)...)), frameBytes(1, rtcpRR())}, Silent: true, Drain: true},
+			HostilePlan{Label: "setup-savp-bad-mikey", Chunks: [][]byte{announce,
+				(&RawReq{Method: "SETUP", URL: ku, Headers: hdr(2, [2]string{"Transport", "RTP/SAVP/TCP;unicast;interleaved=0-1;mode=record"}, [2]string{"KeyMgmt", "prot=mikey;uri=\"x\";data=\"AQAFAP1td9GA\""})}).Bytes()}, Silent: true, Drain: true},
+		)
+	}
 	if cfg.UDP && !cfg.TLS {
 		plans = append(plans,
 			HostilePlan{Label: "record-udp-port0", Chunks: [][]byte{announce, recSetup("RTP/AVP;unicast;client_port=0-1;mode=record"), record}, Silent: true, Drain: true},
@@ -216,6 +264,13 @@ func specialPlans(rng *rand.Rand, cfg Cfg) []HostilePlan {
 			HostilePlan{Label: "play-udp-abandon", Chunks: [][]byte{(&RawReq{Method: "SETUP", URL: u + "/trackID=0", Headers: hdr(1, [2]string{"Transport", "RTP/AVP;unicast;client_port=35404-35405"})}).Bytes(), play(2)}, Silent: false, Drain: true},
 			HostilePlan{Label: "play-udp-port0", Chunks: [][]byte{(&RawReq{Method: "SETUP", URL: u + "/trackID=0", Headers: hdr(1, [2]string{"Transport", "RTP/AVP;unicast;client_port=0-1"})}).Bytes(), play(2)}, Silent: true, Drain: true},
 			HostilePlan{Label: "play-udp-hugeport", Chunks: [][]byte{(&RawReq{Method: "SETUP", URL: u + "/trackID=0", Headers: hdr(1, [2]string{"Transport", "RTP/AVP;unicast;client_port=70000-70001"})}).Bytes(), play(2)}, Silent: true, Drain: true},
+			HostilePlan{Label: "play-udp-good-ports-second-setup", PauseMs: 60, Chunks: [][]byte{
+				(&RawReq{Method: "SETUP", URL: u + "/trackID=0", Headers: hdr(1, [2]string{"Transport", "RTP/AVP;unicast;client_port=35410-35411"})}).Bytes(),
+				(&RawReq{Method: "SETUP", URL: u + "/trackID=1", Headers: hdr(2, [2]string{"Transport", "RTP/AVP;unicast;client_port={{GP}}-{{GP1}}"}, [2]string{"Session", "{{SID}}"})}).Bytes(),
+				play(3),
+				(&RawReq{Method: "TEARDOWN", URL: u, Headers: hdr(4, [2]string{"Session", "{{SID}}"})}).Bytes()}, Silent: false, Drain: true},
+			HostilePlan{Label: "record-udp-good-ports", PauseMs: 60, Chunks: [][]byte{announce, recSetup("RTP/AVP;unicast;client_port={{GP}}-{{GP1}};mode=record"), record,
+				(&RawReq{Method: "TEARDOWN", URL: pu, Headers: hdr(4, [2]string{"Session", "{{SID}}"})}).Bytes()}, Silent: false, Drain: true},
 			HostilePlan{Label: "play-udp-good-ports", Chunks: [][]byte{(&RawReq{Method: "SETUP", URL: u + "/trackID=0", Headers: hdr(1, [2]string{"Transport", "RTP/AVP;unicast;client_port={{GP}}-{{GP1}}"})}).Bytes(), play(2)}, Silent: true, Drain: true},
 		)
 	}
@@ -223,7 +278,7 @@ func specialPlans(rng *rand.Rand, cfg Cfg) []HostilePlan {
 }
 
 // genScenario builds one scenario.
-func genScenario(rng *rand.Rand, idx int, dist func(string)) Scenario {
+func genScenario(rng *rand.Rand, seed uint64, idx int, dist func(string)) Scenario {
 	cfgs := []Cfg{{Handler: "full", UDP: true}, {Handler: "full", UDP: true}, {Handler: "params", UDP: true}, {Handler: "play", UDP: true},
 		{Handler: "full", UDP: false}, {Handler: "full", UDP: true, TLS: true}, {Handler: "full", UDP: false, TLS: true}}
 	cfg := cfgs[rng.IntN(len(cfgs))]
@@ -233,7 +288,15 @@ func genScenario(rng *rand.Rand, idx int, dist func(string)) Scenario {
 	special := specialPlans(rng, cfg)
 	for i := 0; i < np; i++ {
 		var plan HostilePlan
-		switch k := rng.IntN(10); {
+		k := rng.IntN(10)
+		if i == 0 {
+			k = 0 // the first peer of every scenario is a hand-made attack, in rotation
+		}
+		switch {
+		case k < 3 && i == 0:
+			plan = special[(idx*31+int(seed)*7)%len(special)]
+			dist("plan=special")
+			dist("special=" + plan.Label)
 		case k < 3:
 			plan = special[rng.IntN(len(special))]
 			dist("plan=special")
@@ -304,6 +367,7 @@ func corpusScenarios() []Scenario {
 		{Name: "scenario-corpus-slow-start", Cfg: cfg, GoodUDP: false, Peers: pick("silent", "three-bytes", "http-get-incomplete")},
 		{Name: "scenario-corpus-ws-early-data", Cfg: cfg, GoodUDP: true, Peers: pick("ws-early-data", "ws-then-raw")},
 		{Name: "scenario-corpus-record-badport", Cfg: cfg, GoodUDP: true, Peers: pick("record-udp-port0", "record-udp-port65535", "record-udp-hugeport")},
+		{Name: "scenario-corpus-udp-port-collision", Cfg: cfg, GoodUDP: true, Peers: pick("play-udp-good-ports-second-setup")},
 		{Name: "scenario-corpus-tls-silent", Cfg: Cfg{Handler: "full", TLS: true}, Peers: pick("silent-raw", "silent")},
 	}
 }
